@@ -1,9 +1,7 @@
-(* Groundwork for the converse of build_computes_trace_cf_partial (reading undefined => evaluation fails;
-   TraceCFProofs.build_computes_trace_cf_full is still unproved for traces with bodies): the converse invariant
-   `inv2` (the graph environment binds no value name that the reading has not bound), its preservation when
-   CastLike outputs and freshly created values are bound, and the fact that the CastLike nodes define exactly the
-   new anonymous names.  Hypothesis beyond the partial theorem: "?undefined" (the name of a value id that does not
-   exist) is not a defined name. *)
+(* The converse of build_computes_trace_cf_partial, hence the full statement: the evaluation of the built graph
+   EQUALS the direct reading of the trace, failure included (`build_computes_trace_cf_eq`).  Needs the converse
+   invariant `inv2` (the graph environment binds no value name that the reading has not bound) next to `inv`, and
+   one more hypothesis: "?undefined" (the name of a value id that does not exist) is not a defined name. *)
 From Coq Require Import String List Bool Arith ZArith Lia.
 Require Import OV.Graph.Syntax OV.Graph.Sem OV.Graph.SemProofs OV.Graph.Names.
 Require Import OV.Builder.Strings OV.Builder.StringsProofs OV.Builder.Naming OV.Builder.NamingProofs.
@@ -108,4 +106,595 @@ Section ConvCF.
         rewrite (IH _ _ _ _ _ _ _ Er), Es3. cbn. rewrite Q. unfold defs_nodes. cbn. now rewrite <- app_assoc.
       + destruct (resolve cf st s local r) as [[[s1 l1] ins1] pre1] eqn:Er. inversion H; subst. eauto.
   Qed.
+
+
+  Lemma lookup_ud : forall E e nid, inv E e nid -> nid <= List.length N -> inv2 E e -> lookup e ud = None.
+  Proof.
+    intros E e nid I Hle I2. specialize (I2 (List.length N)). rewrite nth_overflow in I2 by lia. apply I2.
+    destruct (vlook E (List.length N)) as [v|] eqn:Ev; [|reflexivity]. destruct (I _ _ Ev). lia.
+  Qed.
+
+  Lemma name_unbound : forall E e nid s id, inv E e nid -> inv2 E e -> nid <= List.length (b_names s) -> below s ->
+    vlook E id = None -> lookup e (name_of s id) = None.
+  Proof.
+    intros E e nid s id I I2 Hle Hb Hv.
+    destruct (Nat.lt_ge_cases id (List.length (b_names s))) as [Hlt|Hge].
+    - rewrite (name_of_below N A C s id Hb Hlt). now apply I2.
+    - unfold name_of. rewrite nth_overflow by lia. eapply lookup_ud; eauto.
+      pose proof (below_len N A C s Hb). lia.
+  Qed.
+
+  Lemma lookup_app_anon : forall (b e : env V) x, (forall y, In y (map fst b) -> In y A) -> ~ In x A ->
+    lookup (b ++ e) x = lookup e x.
+  Proof.
+    induction b as [|[y v] t IH]; intros e x Hb Hx; cbn; [reflexivity|].
+    destruct (String.eqb x y) eqn:Eq.
+    - apply String.eqb_eq in Eq. subst. exfalso. apply Hx. apply Hb. now left.
+    - apply IH; auto. intros z Hz. apply Hb. now right.
+  Qed.
+
+  (* operands without a reading: the CastLike nodes fail, or an operand name is unbound afterwards *)
+  Lemma resolve_none : forall args st s local s' local' ins pre,
+    resolve cf st s local args = (s', local', ins, pre) -> below s' ->
+    forall ev E e nid, inv E e nid -> inv2 E e -> nid <= List.length (b_names s) -> cok e ->
+      Forall lok (arg_lits args) -> cargs E args = None ->
+      runn ev e pre = None \/ exists e1, runn ev e pre = Some e1 /\ lookup_opts e1 ins = None.
+  Proof.
+    induction args as [|a r IH]; intros st s local s' local' ins pre Hr Hb ev E e nid Hi Hi2 Hle Hc Hl Ha.
+    - discriminate.
+    - assert (Hbs : below s) by (eapply below_ext; [exact (proj2 (resolve_ext cf _ _ _ _ _ _ _ _ Hr))|exact Hb]).
+      destruct a as [id | l | l like | ]; cbn [resolve] in Hr; cbn [TraceCF.cargs] in Ha.
+      + destruct (resolve cf st s local r) as [[[s1 l1] ins1] pre1] eqn:Er. inversion Hr; subst. clear Hr.
+        destruct (resolve_ext cf _ _ _ _ _ _ _ _ Er) as [Nn Ex].
+        destruct (vlook E id) as [v|] eqn:Ev.
+        * destruct (cargs E r) as [vs'|] eqn:Ea; [discriminate|].
+          destruct (IH _ _ _ _ _ _ _ Er Hb ev E e nid Hi Hi2 Hle Hc Hl Ea) as [L|[e1 [R1 R2]]]; [now left|].
+          right. exists e1. split; auto. cbn [lookup_opts]. rewrite R2. destruct (lookup e1 (name_of s id)); reflexivity.
+        * destruct (runn ev e pre) as [e1|] eqn:Rp; [|now left]. right. exists e1. split; auto.
+          destruct (run_shape V sem truth trip of_nat of_bool lim ev pre e e1 Rp) as [b [-> Hbn]].
+          cbn [lookup_opts]. rewrite lookup_app_anon.
+          -- rewrite (name_unbound E e nid s id Hi Hi2 Hle Hbs Ev). reflexivity.
+          -- intros y Hy. destruct Hb as (_ & _ & A' & _ & _ & HA). rewrite HA, (resolve_defs _ _ _ _ _ _ _ _ Er).
+             apply in_or_app. left. apply in_or_app. right. now apply Hbn.
+          -- destruct (Nat.lt_ge_cases id (List.length (b_names s))) as [Hlt|Hge].
+             ++ rewrite (name_of_below N A C s id Hbs Hlt). apply nthN_notA.
+             ++ unfold name_of. rewrite nth_overflow by lia. intro Q. apply Hud. apply in_or_app. right. apply in_or_app. now left.
+      + destruct (promote s l) as [s0 n] eqn:Epr.
+        destruct (resolve cf st s0 local r) as [[[s1 l1] ins1] pre1] eqn:Er. inversion Hr; subst. clear Hr.
+        destruct (cargs E r) as [vs'|] eqn:Ea; [discriminate|].
+        cbn [arg_lits flat_map] in Hl. change (flat_map _ r) with (arg_lits r) in Hl.
+        inversion Hl as [|? ? Hl1 Hl2]; subst.
+        destruct (promote_spec s l s0 n Epr) as (Q1 & _).
+        assert (Hle0 : nid <= List.length (b_names s0)) by (rewrite Q1; exact Hle).
+        destruct (IH _ _ _ _ _ _ _ Er Hb ev E e nid Hi Hi2 Hle0 Hc Hl2 Ea) as [L|[e1 [R1 R2]]]; [now left|].
+        right. exists e1. split; auto. cbn [lookup_opts]. rewrite R2. destruct (lookup e1 n); reflexivity.
+      + destruct (promote s l) as [s0 n] eqn:Epr. cbv zeta in Hr.
+        remember (note_anon (bump s0 (node_name st "CastLike" (cnt cf s0 local)))
+                            (qualify_value st (base_name "CastLike" (cnt cf s0 local)))) as s3v eqn:Es3.
+        destruct (resolve cf st s3v (S local) r) as [[[s1 l1] ins1] pre1] eqn:Er.
+        inversion Hr; subst s' local' ins pre. clear Hr.
+        cbn [arg_lits flat_map] in Hl. change (flat_map _ r) with (arg_lits r) in Hl.
+        inversion Hl as [|x0 l00 Hl1 Hl2]; subst x0 l00.
+        destruct (promote_spec s l s0 n Epr) as (Q1 & _ & _ & _ & [l0 Q5]).
+        destruct (promote_ext _ _ _ _ Epr) as (_ & Q2 & _).
+        set (o := qualify_value st (base_name "CastLike" (cnt cf s0 local))) in *.
+        assert (N3 : b_names s3v = b_names s) by (rewrite Es3; cbn; exact Q1).
+        assert (A3 : b_anon s3v = b_anon s ++ [o]) by (rewrite Es3; cbn; now rewrite Q2).
+        assert (C3 : b_cache s3v = b_cache s0) by (rewrite Es3; reflexivity).
+        destruct (resolve_ext cf _ _ _ _ _ _ _ _ Er) as [Nn (M1 & D1 & A1 & _ & X2 & X3)].
+        pose proof Hb as (M' & D' & A' & HN & HC & HA).
+        assert (HNs : N = b_names s ++ M') by (rewrite HN, Nn, N3; reflexivity).
+        assert (HC0 : C = b_cache s0 ++ (D1 ++ D')) by (rewrite HC, X2, C3; now rewrite app_assoc).
+        assert (HA0 : A = ((b_anon s ++ [o]) ++ A1) ++ A') by (rewrite HA, X3, A3; reflexivity).
+        assert (HoA : In o A).
+        { rewrite HA0. apply in_or_app. left. apply in_or_app. left. apply in_or_app. right. now left. }
+        destruct (cok_lookup V lit_val C e _ _ _ _ _ Hc HC0 Q5) as (K1 & K2 & K3).
+        set (nd := Node "" "CastLike" [Some n; Some (name_of s like)] [o] [] []).
+        assert (HoN : forall id, nth id N ud <> o).
+        { intros id Q. apply (nthN_notA id). now rewrite Q. }
+        assert (Hfail : forall X : Prop, enode ev e nd = None -> runn ev e (nd :: pre1) = None \/ X).
+        { intros X Q. left. cbn [run]. now rewrite Q. }
+        destruct (vlook E like) as [lv|] eqn:Ev.
+        * destruct (Hi like lv Ev) as [Hlt Hlk].
+          assert (Hname : name_of s like = nth like N ud).
+          { unfold name_of. rewrite HNs. now rewrite app_nth1 by lia. }
+          assert (Hnode : enode ev e nd =
+                          match sem "" "CastLike" [] [Some (lit_val (l_val l)); Some lv] with
+                          | Some rs => bind [o] rs e | None => None end).
+          { unfold nd. rewrite eval_plain_node by reflexivity. cbn [lookup_opts].
+            rewrite K1, Hname, Hlk. cbn [option_map]. now rewrite (Hl1 _ _ K3). }
+          destruct (sem "" "CastLike" [] [Some (lit_val (l_val l)); Some lv]) as [[|cv [|? ?]]|] eqn:Es;
+            try (apply Hfail; rewrite Hnode; reflexivity).
+          destruct (cargs E r) as [vs'|] eqn:Ea; [discriminate|].
+          assert (Hev : enode ev e nd = Some ((o, cv) :: e)) by (rewrite Hnode; reflexivity).
+          assert (Hi' : inv E ((o, cv) :: e) nid).
+          { intros id v Hv. destruct (Hi id v Hv) as [H1 H2]. split; auto. cbn [lookup].
+            destruct (String.eqb (nth id N ud) o) eqn:Eq; auto. apply String.eqb_eq in Eq. exfalso. exact (HoN id Eq). }
+          assert (Hi2' : inv2 E ((o, cv) :: e)).
+          { intros id Hv. cbn [lookup]. destruct (String.eqb (nth id N ud) o) eqn:Eq; [|now apply Hi2].
+            apply String.eqb_eq in Eq. exfalso. exact (HoN id Eq). }
+          assert (Hc' : cok ((o, cv) :: e)).
+          { intros k' n' l' Hk'. cbn [lookup]. destruct (String.eqb n' o) eqn:Eq; [|eapply Hc; eauto].
+            apply String.eqb_eq in Eq. subst n'. exfalso. eapply (A_notC N A C Hnd o HoA).
+            apply assoc_str_In in Hk'. unfold cache_names. apply in_map_iff. exists (k', (o, l')). auto. }
+          assert (Hle3 : nid <= List.length (b_names s3v)) by (rewrite N3; exact Hle).
+          destruct (IH _ _ _ _ _ _ _ Er Hb ev E _ nid Hi' Hi2' Hle3 Hc' Hl2 Ea) as [L|[e1 [R1 R2]]].
+          -- left. cbn [run]. now rewrite Hev.
+          -- right. exists e1. split; [cbn [run]; now rewrite Hev|].
+             cbn [lookup_opts]. rewrite R2. destruct (lookup e1 o); reflexivity.
+        * apply Hfail. unfold nd. rewrite eval_plain_node by reflexivity. cbn [lookup_opts].
+          rewrite K1, (name_unbound E e nid s like Hi Hi2 Hle Hbs Ev). reflexivity.
+      + destruct (resolve cf st s local r) as [[[s1 l1] ins1] pre1] eqn:Er. inversion Hr; subst. clear Hr.
+        destruct (cargs E r) as [vs'|] eqn:Ea; [discriminate|].
+        destruct (IH _ _ _ _ _ _ _ Er Hb ev E e nid Hi Hi2 Hle Hc Hl Ea) as [L|[e1 [R1 R2]]]; [now left|].
+        right. exists e1. split; auto. cbn [lookup_opts]. now rewrite R2.
+  Qed.
+
+
+  Definition sub_eq (ev : env V -> graph -> list V -> option (list V))
+                    (rb : venv V -> nat -> sub -> list V -> option (list V)) : Prop :=
+    forall sb s0 s1 g E e args,
+      build_sub cf rn sb s0 = (s1, g) -> below s1 -> inv E e (List.length (b_names s0)) -> inv2 E e -> cok e ->
+      Forall lok (lits_sub sb) -> cf_sub sb = true ->
+      ev e g args = rb E (List.length (b_names s0)) sb args.
+
+  Lemma sub_eq_rel : forall ev rb, sub_eq ev rb -> forall sb s0 s1 g E e args r,
+      build_sub cf rn sb s0 = (s1, g) -> below s1 -> inv E e (List.length (b_names s0)) -> inv2 E e -> cok e ->
+      Forall lok (lits_sub sb) -> cf_sub sb = true ->
+      rb E (List.length (b_names s0)) sb args = Some r -> ev e g args = Some r.
+  Proof. intros ev rb H sb s0 s1 g E e args r B Bl I I2 K L Cf R. rewrite (H sb s0 s1 g E e args B Bl I I2 K L Cf). exact R. Qed.
+
+  Lemma subs_find_none : forall name subs s s1 sgs nid,
+    build_subs cf rn subs s = (s1, sgs) -> sub_at name nid subs = None -> find_sub name sgs = None.
+  Proof.
+    induction subs as [|[k0 sb0] r IH]; intros s s1 sgs nid Hb Hs; cbn [build_subs] in Hb.
+    - inversion Hb; subst. reflexivity.
+    - destruct (build_sub cf rn sb0 s) as [sa g0] eqn:E0.
+      destruct (build_subs cf rn r sa) as [sb' gs] eqn:E1. inversion Hb; subst.
+      cbn [sub_at] in Hs. cbn [find_sub]. destruct (String.eqb k0 name); [discriminate|]. eapply IH; eauto.
+  Qed.
+
+  Lemma rloop_eq : forall ev rb E k0 body e g,
+    (forall args, ev e g args = rb E k0 body args) ->
+    forall k bounded i c st,
+      loop_iter V truth of_nat of_bool ev e g bounded k i c st = rloop rb E k0 body bounded k i c st.
+  Proof.
+    intros ev rb E k0 body e g H. induction k as [|k IH]; intros bounded i c st; cbn [TraceCF.rloop loop_iter]; [reflexivity|].
+    destruct (negb c); [reflexivity|]. rewrite H.
+    destruct (rb E k0 body (of_nat i :: of_bool c :: st)) as [[|cv' st']|]; try reflexivity.
+    destruct (Nat.eqb (List.length st') (List.length st)); [|reflexivity].
+    destruct (truth cv'); [|reflexivity]. apply IH.
+  Qed.
+
+  Lemma lookup_opts_none_split : forall (e : env V) m c carried,
+    lookup_opts e (m :: c :: carried) = None ->
+    lookup_opts e [m; c] = None \/ lookups e (present carried) = None.
+  Proof.
+    intros e m c carried H.
+    destruct (lookup_opts e [m; c]) as [mc|] eqn:E1; [|now left]. right.
+    destruct (lookups e (present carried)) as [st|] eqn:E2; [|reflexivity]. exfalso.
+    assert (Hc : exists vs, lookup_opts e carried = Some vs).
+    { clear H E1. revert st E2. induction carried as [|[x|] t IH]; intros st E2; cbn in *.
+      - eexists; reflexivity.
+      - destruct (lookup e x); [|discriminate]. destruct (lookups e (present t)) as [r|]; [|discriminate].
+        destruct (IH r eq_refl) as [vs Hvs]. rewrite Hvs. eexists; reflexivity.
+      - destruct (IH st E2) as [vs Hvs]. rewrite Hvs. eexists; reflexivity. }
+    destruct Hc as [vs Hvs]. cbn [lookup_opts] in *.
+    destruct m as [x|]; destruct c as [y|];
+      repeat match type of E1 with context [lookup e ?z] => destruct (lookup e z) end; try discriminate;
+      rewrite Hvs in H; cbn in H; discriminate.
+  Qed.
+
+  Lemma lopts_len : forall (e : env V) xs vs, lookup_opts e xs = Some vs -> List.length vs = List.length xs.
+  Proof.
+    induction xs as [|[x|] t IH]; intros vs; cbn.
+    - intro H; inversion H; reflexivity.
+    - destruct (lookup e x); [|discriminate]. destruct (lookup_opts e t) as [r|]; [|discriminate].
+      intro H; inversion H; subst. cbn. now rewrite (IH r).
+    - destruct (lookup_opts e t) as [r|]; [|discriminate]. cbn. intro H; inversion H; subst. cbn. now rewrite (IH r).
+  Qed.
+
+  Lemma node_no_inputs : forall ev e1 dom op ins outs attrs sgs,
+    lookup_opts e1 ins = None -> enode ev e1 (Node dom op ins outs attrs sgs) = None.
+  Proof.
+    intros ev e1 dom op ins outs attrs sgs H. unfold eval_node.
+    destruct (is_if dom op); [now rewrite H|].
+    destruct (is_loop dom op); [|now rewrite H].
+    destruct ins as [|m [|c carried]]; try reflexivity.
+    destruct (find_sub "body" sgs); [|reflexivity].
+    destruct (lookup_opts_none_split e1 m c carried H) as [Q|Q]; rewrite Q; [reflexivity|].
+    destruct (lookup_opts e1 [m; c]) as [[|? [|? [|? ?]]]|]; reflexivity.
+  Qed.
+
+  Lemma bind_mismatch : forall (xs : list vname) (vs : list V) e,
+    Nat.eqb (List.length vs) (List.length xs) = false -> bind xs vs e = None.
+  Proof.
+    intros xs vs e H. rewrite bind_spec. rewrite Nat.eqb_sym in H. unfold vname in *. now rewrite H.
+  Qed.
+
+  (* a call without a reading: the nodes built for it fail *)
+  Lemma call_none : forall ev rb, sub_eq ev rb ->
+    forall c s local s' local' ns E e,
+      build_call cf rn c s local = (s', local', ns) -> below s' -> cf_call c = true ->
+      Forall lok (lits_call c) -> inv E e (List.length (b_names s)) -> inv2 E e -> cok e ->
+      creplay_call rb E (List.length (b_names s)) c = None ->
+      runn ev e ns = None.
+  Proof.
+    intros ev rb Heq c s local s' local' ns E e Hb Hbel Hcf Hl Hi Hi2 Hc Hr.
+    destruct c as [st dom op args attrs subs outs|]; [|discriminate].
+    rewrite build_call_eq in Hb. cbv zeta in Hb.
+    destruct (build_subs cf rn subs s) as [s1 sgs] eqn:Es.
+    destruct (resolve cf st s1 local args) as [[[s2 local2] ins] pre] eqn:Er.
+    destruct (fresh_many rn s2 (out_names st op (cnt cf s2 local2) outs)) as [s3 onames] eqn:Ef.
+    inversion Hb; subst s' local' ns. clear Hb.
+    rewrite cf_call_eq in Hcf. apply andb_true_iff in Hcf as [Hkind Hcfs].
+    rewrite lits_call_eq in Hl. apply Forall_app in Hl as [Hla Hls].
+    assert (Hg : Forall (fun ks => grows_sub cf rn (snd ks)) subs).
+    { apply Forall_forall. intros. apply (proj2 (grows_all cf rn)). }
+    destruct (grows_subs cf rn _ Hg _ _ _ Es) as [X1 L1].
+    destruct (resolve_ext cf _ _ _ _ _ _ _ _ Er) as [N2 X2].
+    destruct (fresh_many_spec rn _ _ _ _ Ef) as (N3 & L3 & C3 & A3 & _).
+    assert (X3 : ext s2 s3) by (eapply fresh_many_ext; eauto).
+    assert (B3 : below s3) by (eapply below_ext; [apply bump_ext|exact Hbel]).
+    assert (B2 : below s2) by (eapply below_ext; eauto).
+    assert (B1 : below s1) by (eapply below_ext; eauto).
+    assert (Hle : List.length (b_names s) <= List.length (b_names s1)) by lia.
+    rewrite (run_app V sem truth trip of_nat of_bool lim).
+    cbn [TraceCF.creplay_call] in Hr.
+    destruct (cargs E args) as [vs|] eqn:Ea.
+    2:{ destruct (resolve_none _ _ _ _ _ _ _ _ Er B2 ev E e _ Hi Hi2 Hle Hc Hla Ea) as [L|[e1 [R1 R2]]].
+        - now rewrite L.
+        - rewrite R1. cbn [run]. now rewrite (node_no_inputs ev e1 _ _ _ _ _ _ R2). }
+    destruct (resolve_sem V sem truth trip of_nat of_bool lim lit_val cf N A C Hnd _ _ _ _ _ _ _ _ Er B2 ev E e _ vs Hi Hle Hc Hla Ea)
+      as (e1 & An & R1 & R2 & R3 & R4).
+    rewrite R1. cbn [run].
+    assert (HAn : forall x, In x An -> In x A).
+    { intros x Hx. destruct B2 as (_ & _ & A' & _ & _ & HA). rewrite HA, R3. apply in_or_app. left. apply in_or_app. now right. }
+    assert (Hi1 : inv E e1 (List.length (b_names s))).
+    { intros id v Hv. destruct (Hi id v Hv) as [H1 H2]. split; auto. rewrite R4; auto.
+      intro Hin. apply (nthN_notA id). now apply HAn. }
+    assert (Hi21 : inv2 E e1) by (eapply inv2_agree; eauto).
+    assert (Hc1 : cok e1).
+    { intros k n l0 Hk. rewrite R4; [eapply Hc; eauto|]. intro Hin. eapply (A_notC N A C Hnd n); eauto.
+      apply assoc_str_In in Hk. unfold cache_names. apply in_map_iff. exists (k, (n, l0)). auto. }
+    set (n := n_outs_of outs) in *.
+    assert (Hlen_on : List.length onames = n) by (rewrite L3; apply out_names_length).
+    assert (Hfin : forall rs, (if Nat.eqb (List.length rs) n
+                               then Some (vbind (List.length (b_names s) + nvals_subs subs) rs E, List.length (b_names s) + nvals_subs subs + n)
+                               else None) = None -> bind onames rs e1 = None).
+    { intros rs Q. destruct (Nat.eqb (List.length rs) n) eqn:En; [discriminate|]. apply bind_mismatch. unfold vname in *. rewrite Hlen_on. exact En. }
+    assert (match enode ev e1 (Node dom op ins onames attrs sgs) with Some e' => False | None => True end) as Hnone.
+    2:{ destruct (enode ev e1 (Node dom op ins onames attrs sgs)); [contradiction|reflexivity]. }
+    unfold eval_node.
+    destruct (is_if dom op) eqn:Eif.
+    - rewrite R2.
+      destruct vs as [|[cv|] [|? ?]]; auto.
+      destruct (truth cv) as [b|]; auto.
+      destruct (sub_at (if b then "then_branch" else "else_branch")%string (List.length (b_names s)) subs) as [[k sb]|] eqn:Esa.
+      + destruct (subs_find V lit_val cf rn C _ _ _ _ _ _ _ Es Esa) as (s0 & s0' & g & G1 & G2 & G3 & G4 & G5 & G6 & G7).
+        rewrite G2. subst k.
+        assert (Hev : ev e1 g [] = rb E (List.length (b_names s0)) sb []).
+        { eapply (Heq sb s0 s0' g E e1 [] G1); eauto.
+          - eapply below_ext; eauto.
+          - eapply inv_mono; eauto. destruct G4 as (M & _ & _ & HM & _). rewrite HM, app_length. lia. }
+        rewrite Hev. destruct (rb E (List.length (b_names s0)) sb []) as [rs|]; auto.
+        rewrite (Hfin rs Hr). auto.
+      + now rewrite (subs_find_none _ _ _ _ _ _ Es Esa).
+    - destruct (is_loop dom op) eqn:Eloop.
+      + pose proof (lopts_len e1 ins vs R2) as Hlen.
+        destruct ins as [|m [|c carried]]; [cbn; auto|cbn; auto|].
+        destruct vs as [|mv [|cv rest]]; [discriminate|discriminate|].
+        destruct (lookup_opts_two V e1 _ _ _ _ R2) as (m' & c' & carried' & I1 & I2 & I3).
+        inversion I1; subst m' c' carried'. clear I1.
+        destruct (sub_at "body" (List.length (b_names s)) subs) as [[k body]|] eqn:Esa.
+        2:{ now rewrite (subs_find_none _ _ _ _ _ _ Es Esa). }
+        destruct (subs_find V lit_val cf rn C _ _ _ _ _ _ _ Es Esa) as (s0 & s0' & g & G1 & G2 & G3 & G4 & G5 & G6 & G7).
+        rewrite G2, I2, (lookup_opts_present V e1 _ _ I3). subst k.
+        assert (Hev : forall args0, ev e1 g args0 = rb E (List.length (b_names s0)) body args0).
+        { intros args0. eapply (Heq body s0 s0' g E e1 args0 G1); eauto.
+          - eapply below_ext; eauto.
+          - eapply inv_mono; eauto. destruct G4 as (M & _ & _ & HM & _). rewrite HM, app_length. lia. }
+        destruct (match mv with Some v => option_map Some (trip v) | None => Some None end) as [mt|]; auto.
+        destruct (match cv with Some v => truth v | None => Some true end) as [c0|]; auto.
+        destruct mt as [kk|].
+        * rewrite (rloop_eq ev rb E _ body e1 g Hev).
+          destruct (rloop rb E (List.length (b_names s0)) body true kk 0 c0 (somes V rest)) as [stf|]; auto.
+          rewrite (Hfin stf Hr). auto.
+        * rewrite (rloop_eq ev rb E _ body e1 g Hev).
+          destruct (rloop rb E (List.length (b_names s0)) body false lim 0 c0 (somes V rest)) as [stf|]; auto.
+          rewrite (Hfin stf Hr). auto.
+      + rewrite R2.
+        assert (Hsubs : subs = []).
+        { destruct subs; [reflexivity|]. rewrite ?Eif, ?Eloop in Hkind. cbn in Hkind. discriminate. }
+        subst subs. cbn [build_subs] in Es. inversion Es; subst.
+        destruct (sem dom op attrs vs) as [rs|]; auto.
+        rewrite (Hfin rs Hr). auto.
+  Qed.
+
+
+  Lemma creplay_call_shape : forall rb E nid st dom op args attrs subs outs E' nid',
+    creplay_call rb E nid (COp st dom op args attrs subs outs) = Some (E', nid') ->
+    exists rs, List.length rs = n_outs_of outs /\ E' = vbind (nid + nvals_subs subs) rs E.
+  Proof.
+    intros rb E nid st dom op args attrs subs outs E' nid' H. cbn [TraceCF.creplay_call] in H.
+    repeat match type of H with
+           | context [match ?x with _ => _ end] => destruct x eqn:?; try discriminate
+           | context [if Nat.eqb (List.length ?rs) ?n then _ else _] =>
+             destruct (Nat.eqb (List.length rs) n) eqn:?; try discriminate
+           | context [if ?x then _ else _] => destruct x eqn:?; try discriminate
+           end;
+      inversion H; subst; eexists; (split; [|reflexivity]); apply Nat.eqb_eq; assumption.
+  Qed.
+
+  Lemma lookup_app_skip : forall (b e : env V) x, (forall y, In y (map fst b) -> y <> x) -> lookup (b ++ e) x = lookup e x.
+  Proof.
+    induction b as [|[y v] t IH]; intros e x H; cbn; [reflexivity|].
+    destruct (String.eqb x y) eqn:Eq.
+    - apply String.eqb_eq in Eq. subst. exfalso. apply (H y); [now left|reflexivity].
+    - apply IH. intros z Hz. apply H. now right.
+  Qed.
+
+  (* after a call that has a reading, the graph environment still binds nothing the reading has not bound *)
+  Lemma call_inv2 : forall ev rb c s local s' local' ns E e e' E' nid',
+    build_call cf rn c s local = (s', local', ns) -> below s' -> cf_call c = true ->
+    inv E e (List.length (b_names s)) -> inv2 E e ->
+    creplay_call rb E (List.length (b_names s)) c = Some (E', nid') ->
+    runn ev e ns = Some e' -> inv2 E' e'.
+  Proof.
+    intros ev rb c s local s' local' ns E e e' E' nid' Hb Hbel Hcf Hi Hi2 Hr Hrun.
+    destruct c as [st dom op args attrs subs outs|]; [|discriminate].
+    destruct (creplay_call_shape _ _ _ _ _ _ _ _ _ _ _ _ Hr) as (rs & Hrs & ->).
+    rewrite build_call_eq in Hb. cbv zeta in Hb.
+    destruct (build_subs cf rn subs s) as [s1 sgs] eqn:Es.
+    destruct (resolve cf st s1 local args) as [[[s2 local2] ins] pre] eqn:Er.
+    destruct (fresh_many rn s2 (out_names st op (cnt cf s2 local2) outs)) as [s3 onames] eqn:Ef.
+    inversion Hb; subst s' local' ns. clear Hb.
+    assert (Hg : Forall (fun ks => grows_sub cf rn (snd ks)) subs).
+    { apply Forall_forall. intros. apply (proj2 (grows_all cf rn)). }
+    destruct (grows_subs cf rn _ Hg _ _ _ Es) as [X1 L1].
+    destruct (resolve_ext cf _ _ _ _ _ _ _ _ Er) as [N2 X2].
+    destruct (fresh_many_spec rn _ _ _ _ Ef) as (N3 & L3 & C3 & A3 & _).
+    assert (B3 : below s3) by (eapply below_ext; [apply bump_ext|exact Hbel]).
+    destruct B3 as (M3 & D3 & A3' & HN3 & HC3 & HA3).
+    assert (Hlen_on : List.length onames = n_outs_of outs) by (rewrite L3; apply out_names_length).
+    assert (Hlen2 : List.length (b_names s2) = List.length (b_names s) + nvals_subs subs) by (rewrite N2; exact L1).
+    destruct (run_shape V sem truth trip of_nat of_bool lim ev _ e e' Hrun) as [b [-> Hbn]].
+    intros id Hv. rewrite vlook_vbind in Hv.
+    destruct ((List.length (b_names s) + nvals_subs subs <=? id) &&
+              (id <? List.length (b_names s) + nvals_subs subs + List.length rs)) eqn:Eb.
+    { apply andb_true_iff in Eb as [E1 E2]. apply Nat.leb_le in E1. apply Nat.ltb_lt in E2.
+      apply nth_error_None in Hv. lia. }
+    rewrite lookup_app_skip; [now apply Hi2|].
+    intros y Hy Q. apply Hbn in Hy. unfold defs_nodes in Hy. rewrite flat_map_app in Hy. cbn [flat_map n_outs] in Hy.
+    rewrite app_nil_r in Hy. apply in_app_or in Hy as [Hy|Hy].
+    - (* an output of a CastLike node *)
+      apply (nthN_notA id). rewrite <- Q. rewrite HA3, A3, (resolve_defs _ _ _ _ _ _ _ _ Er).
+      apply in_or_app. left. apply in_or_app. right. exact Hy.
+    - (* an output of the node: a name of the new segment *)
+      destruct (Nat.lt_ge_cases id (List.length N)) as [Hlt|Hge].
+      + apply In_nth with (d := ud) in Hy as [j [Hj Ej]]. unfold vname in *.
+        pose proof (ndN N A C Hnd) as HndN.
+        assert (HN : N = b_names s2 ++ onames ++ M3) by (rewrite HN3, N3; now rewrite <- app_assoc).
+        assert (Epos : nth (List.length (b_names s2) + j) N ud = nth j onames ud).
+        { rewrite HN at 1. rewrite app_nth2; [|lia].
+          replace (List.length (b_names s2) + j - List.length (b_names s2)) with j by lia. rewrite app_nth1; [reflexivity|exact Hj]. }
+        assert (Hkj : List.length (b_names s2) + j < List.length N) by (rewrite HN, !app_length; lia).
+        rewrite <- Epos, Q in Ej.
+        pose proof (proj1 (NoDup_nth N ud) HndN _ id Hkj Hlt Ej) as Q2.
+        apply andb_false_iff in Eb as [Eb|Eb]; [apply Nat.leb_gt in Eb|apply Nat.ltb_ge in Eb]; lia.
+      + rewrite nth_overflow in Q by lia. apply ud_notN. rewrite HN3, N3, <- Q.
+        apply in_or_app. left. apply in_or_app. now right.
+  Qed.
+
+
+  Notation sub_rel := (sub_rel V lit_val cf rn N A C).
+
+  (* a list of calls: both directions *)
+  Lemma calls_both : forall ev rb, sub_rel ev rb -> sub_eq ev rb ->
+    forall tr s local s' ns E e,
+      build_calls cf rn tr s local = (s', ns) -> below s' -> forallb cf_call tr = true ->
+      Forall lok (lits_calls tr) -> inv E e (List.length (b_names s)) -> inv2 E e -> cok e ->
+      match creplay_calls rb E (List.length (b_names s)) tr with
+      | Some (E', nid') => exists e', runn ev e ns = Some e' /\ inv E' e' nid' /\ inv2 E' e' /\ cok e' /\
+                                      nid' = List.length (b_names s')
+      | None => runn ev e ns = None
+      end.
+  Proof.
+    intros ev rb Hrel Heq. induction tr as [|c r IH]; intros s local s' ns E e Hb Hbel Hcf Hl Hi Hi2 Hc.
+    - cbn in Hb. inversion Hb; subst. cbn. exists e. auto.
+    - cbn [build_calls] in Hb.
+      destruct (build_call cf rn c s local) as [[s1 l1] ns1] eqn:Ec.
+      destruct (build_calls cf rn r s1 l1) as [s2 ns2] eqn:Er. inversion Hb; subst s' ns. clear Hb.
+      cbn [forallb] in Hcf. apply andb_true_iff in Hcf as [Hcf1 Hcf2].
+      unfold lits_calls in Hl. cbn [flat_map] in Hl. apply Forall_app in Hl as [Hl1 Hl2].
+      assert (X : ext s1 s2).
+      { eapply (grows_calls cf rn r); eauto. apply Forall_forall. intros. apply (proj1 (grows_all cf rn)). }
+      assert (B1 : below s1) by (eapply below_ext; eauto).
+      cbn [TraceCF.creplay_calls]. rewrite (run_app V sem truth trip of_nat of_bool lim).
+      destruct (creplay_call rb E (List.length (b_names s)) c) as [[E1 n1]|] eqn:Erc.
+      + destruct (call_sem V sem truth trip of_nat of_bool lim lit_val cf rn N A C Hnd ev rb Hrel c s local s1 l1 ns1 E e E1 n1
+                           Ec B1 Hcf1 Hl1 Hi Hc Erc) as (e1 & R1 & R2 & R3 & R4).
+        pose proof (call_inv2 ev rb c s local s1 l1 ns1 E e e1 E1 n1 Ec B1 Hcf1 Hi Hi2 Erc R1) as R5.
+        subst n1. rewrite R1.
+        exact (IH s1 l1 s2 ns2 E1 e1 Er Hbel Hcf2 Hl2 R2 R5 R3).
+      + now rewrite (call_none ev rb Heq c s local s1 l1 ns1 E e Ec B1 Hcf1 Hl1 Hi Hi2 Hc Erc).
+  Qed.
+
+  Lemma vlooks_none : forall E e nid s ids,
+    inv E e nid -> inv2 E e -> nid <= List.length (b_names s) -> below s -> vlooks V E ids = None ->
+    lookups e (map (name_of s) ids) = None.
+  Proof.
+    intros E e nid s ids Hi Hi2 Hle Hb. induction ids as [|i t IH]; intro H; cbn [TraceCF.vlooks] in H; [discriminate|].
+    cbn [map lookups].
+    destruct (vlook E i) as [v|] eqn:Ev.
+    - destruct (vlooks V E t) as [vs|] eqn:Et; [discriminate|]. rewrite (IH eq_refl).
+      destruct (lookup e (name_of s i)); reflexivity.
+    - now rewrite (name_unbound E e nid s i Hi Hi2 Hle Hb Ev).
+  Qed.
+
+  (* bodies: the evaluation of the built subgraph = the reading of the body, at every depth *)
+  Lemma sub_eq_fuel : forall fuel,
+    sub_eq (eval_graph V sem truth trip of_nat of_bool lim fuel)
+           (creplay_body V sem truth trip of_nat of_bool lim lit_val fuel).
+  Proof.
+    induction fuel as [|f IH]; intros sb s0 s1 g E e args Hb Hbel Hi Hi2 Hc Hl Hcf; [reflexivity|].
+    destruct (creplay_body V sem truth trip of_nat of_bool lim lit_val (S f) E (List.length (b_names s0)) sb args) as [r|] eqn:Hr.
+    { exact (sub_sem V sem truth trip of_nat of_bool lim lit_val cf rn N A C Hnd (S f) sb s0 s1 g E e args r Hb Hbel Hi Hc Hl Hcf Hr). }
+    destruct sb as [ins body rets decl].
+    rewrite build_sub_eq in Hb.
+    destruct (fresh_many rn s0 ins) as [sa inames] eqn:Ef.
+    destruct (build_calls cf rn body sa 0) as [sb' nodes] eqn:Eb. inversion Hb; subst s1 g. clear Hb.
+    rewrite cf_sub_eq in Hcf. rewrite lits_sub_eq in Hl.
+    cbn [TraceCF.creplay_body TraceCF.creplay_sub] in Hr.
+    destruct (fresh_many_spec rn _ _ _ _ Ef) as (Na & La & Ca & Aa & _).
+    cbn [eval_graph]. unfold eval_body. cbn [g_ins g_nodes g_outs].
+    destruct (Nat.eqb (List.length ins) (List.length args)) eqn:El.
+    2:{ rewrite bind_mismatch; [reflexivity|]. unfold vname in *. rewrite La, Nat.eqb_sym. exact El. }
+    apply Nat.eqb_eq in El.
+    assert (Hna : List.length (b_names sa) = List.length (b_names s0) + List.length ins)
+      by (rewrite Na, app_length; lia).
+    rewrite <- Hna in Hr.
+    rewrite bind_spec.
+    assert (Hq : Nat.eqb (@List.length vname inames) (List.length args) = true)
+      by (apply Nat.eqb_eq; unfold vname; lia).
+    rewrite Hq.
+    assert (X : ext sa sb').
+    { eapply (grows_calls cf rn body); eauto. apply Forall_forall. intros. apply (proj1 (grows_all cf rn)). }
+    assert (Ba : below sa) by (eapply below_ext; eauto).
+    pose proof Ba as (Ma & Da & Aa' & HNa & HCa & HAa).
+    assert (HNseg : N = b_names s0 ++ inames ++ Ma) by (rewrite HNa, Na; now rewrite <- app_assoc).
+    assert (Hi0 : inv (vbind (List.length (b_names s0)) args E) (combine inames args ++ e) (List.length (b_names sa))).
+    { rewrite Hna, El.
+      eapply (inv_bind V N A C Hnd E e (List.length (b_names s0)) (List.length (b_names s0)) args (b_names s0) inames Ma); eauto. lia. }
+    assert (Hi20 : inv2 (vbind (List.length (b_names s0)) args E) (combine inames args ++ e)).
+    { eapply (inv2_bind E e (List.length (b_names s0)) args (b_names s0) inames Ma); eauto. lia. }
+    assert (Hc0 : cok (combine inames args ++ e)).
+    { apply (cok_bind V lit_val N A C Hnd); auto. intros x Hx. left. rewrite HNseg. apply in_or_app. right. apply in_or_app. now left. }
+    pose proof (calls_both _ _ (sub_sem V sem truth trip of_nat of_bool lim lit_val cf rn N A C Hnd f) IH
+                  body sa 0 sb' nodes _ _ Eb Hbel Hcf Hl Hi0 Hi20 Hc0) as R.
+    destruct (creplay_calls (creplay_body V sem truth trip of_nat of_bool lim lit_val f)
+                            (vbind (List.length (b_names s0)) args E) (List.length (b_names sa)) body) as [[E2 n2]|].
+    - destruct R as (e' & R1 & R2 & R3 & R4 & R5). unfold vname in *. rewrite R1.
+      eapply vlooks_none; eauto. lia.
+    - unfold vname in *. now rewrite R.
+  Qed.
 End ConvCF.
+
+Lemma init_env_none : forall V (lit_val : string -> V) C x, ~ In x (cache_names C) -> lookup (init_env V lit_val C) x = None.
+Proof.
+  intros V lit_val C x. unfold init_env. induction C as [|[k [n l0]] t IHt]; cbn; intro Hx; [reflexivity|].
+  destruct (String.eqb x n) eqn:Eq.
+  - apply String.eqb_eq in Eq. subst. exfalso. apply Hx. now left.
+  - apply IHt. intro Q. apply Hx. now right.
+Qed.
+
+(* build_computes_trace_cf_eq: the full statement (TraceCFProofs.build_computes_trace_cf_full) under one more
+   hypothesis: "?undefined", the name a value id that does not exist is printed with, is not a defined name.
+   For every trace of operator / function calls, If and Loop calls with bodies (any depth), literal operands
+   (promoted constants, CastLike): evaluating the built graph = the direct reading of the trace, INCLUDING
+   failure: where the reading is undefined (a kernel fails, a value is used outside the scope it was made in, a
+   body returns the wrong number of values, the fuel runs out) the evaluation of the graph fails too. *)
+Theorem build_computes_trace_cf_eq : forall V sem truth trip of_nat of_bool lim lit_val cf fuel ins tr outs args,
+  cf_trace tr = true ->
+  let sf := fst (build_state cf ins tr) in
+  NoDup (all_defined sf) -> ~ In "?undefined"%string (all_defined sf) ->
+  Forall (lit_ok V lit_val (b_cache sf)) (lits_calls tr) ->
+  List.length args = List.length ins ->
+  eval_graph V sem truth trip of_nat of_bool lim (S fuel) (init_env V lit_val (b_cache sf)) (build cf ins tr outs) args =
+  creplay V sem truth trip of_nat of_bool lim lit_val fuel tr args outs.
+Proof.
+  intros V sem truth trip of_nat of_bool lim lit_val cf fuel ins tr outs args Hcf sf Hnd Hud Hl Hlen.
+  destruct (creplay V sem truth trip of_nat of_bool lim lit_val fuel tr args outs) as [r|] eqn:Hr.
+  { now apply build_computes_trace_cf_partial. }
+  unfold build. unfold sf in *. unfold build_state in *.
+  set (rn := renames_calls tr) in *.
+  destruct (build_calls cf rn tr (init_state ins) 0) as [s nodes] eqn:Eb. cbn [fst] in *.
+  unfold all_defined in Hnd, Hud. fold (cache_names (b_cache s)) in Hnd, Hud.
+  set (N := b_names s) in *. set (A := b_anon s) in *. set (C := b_cache s) in *.
+  assert (Hbel : below N A C s) by (exists [], [], []; now rewrite !app_nil_r).
+  assert (X : ext (init_state ins) s).
+  { eapply (grows_calls cf rn tr); eauto. apply Forall_forall. intros. apply (proj1 (grows_all cf rn)). }
+  assert (B0 : below N A C (init_state ins)) by (eapply below_ext; eauto).
+  pose proof B0 as (M0 & D0 & A0 & HN0 & HC0 & HA0). cbn [init_state b_names b_cache b_anon] in HN0, HC0, HA0.
+  cbn [eval_graph]. unfold eval_body. cbn [g_ins g_nodes g_outs].
+  rewrite bind_spec.
+  assert (Hq : Nat.eqb (@List.length vname ins) (List.length args) = true)
+    by (apply Nat.eqb_eq; unfold vname; lia).
+  rewrite Hq.
+  set (outer := init_env V lit_val C).
+  unfold creplay in Hr.
+  assert (Hi0 : inv V N (vbind V 0 args []) (combine ins args ++ outer) (List.length (b_names (init_state ins)))).
+  { cbn [init_state b_names]. rewrite <- Hlen. change (List.length args) with (0 + List.length args).
+    eapply (inv_bind V N A C Hnd [] outer 0 0 args [] ins M0); eauto.
+    intros id v Hv. discriminate. }
+  assert (Hout : forall x, ~ In x (cache_names C) -> lookup outer x = None) by (intros; now apply init_env_none).
+  assert (Hi20 : inv2 V N (vbind V 0 args []) (combine ins args ++ outer)).
+  { change (vbind V 0 args []) with (vbind V 0 args (@nil (nat * V))).
+    eapply (inv2_bind V N A C Hnd Hud [] outer 0 args [] ins M0); eauto.
+    intros id _. apply Hout. intro Q.
+    destruct (nth_in_or_default id N "?undefined"%string) as [Hin|Hd].
+    - exact (N_notC N A C Hnd _ Hin Q).
+    - rewrite Hd in Q. apply Hud. apply in_or_app. right. apply in_or_app. now right. }
+  assert (Hc0 : cache_ok V lit_val C (combine ins args ++ outer)).
+  { eapply (cok_bind V lit_val N A C Hnd); eauto.
+    - intros k n l0 Hk. unfold outer. eapply (lookup_init_env V lit_val _ k).
+      + apply NoDup_app_r in Hnd. apply NoDup_app_r in Hnd. exact Hnd.
+      + now apply assoc_str_In.
+    - intros x Hx. left. rewrite HN0. apply in_or_app. now left. }
+  assert (Hc : List.length args = List.length (b_names (init_state ins))) by (cbn; exact Hlen).
+  rewrite Hc in Hr.
+  pose proof (calls_both V sem truth trip of_nat of_bool lim lit_val cf rn N A C Hnd Hud _ _
+                (sub_sem V sem truth trip of_nat of_bool lim lit_val cf rn N A C Hnd fuel)
+                (sub_eq_fuel V sem truth trip of_nat of_bool lim lit_val cf rn N A C Hnd Hud fuel)
+                tr (init_state ins) 0 s nodes _ _ Eb Hbel Hcf Hl Hi0 Hi20 Hc0) as R.
+  destruct (creplay_calls V sem truth trip of_nat of_bool lim lit_val
+              (creplay_body V sem truth trip of_nat of_bool lim lit_val fuel) (vbind V 0 args [])
+              (List.length (b_names (init_state ins))) tr) as [[E2 n2]|].
+  - destruct R as (e' & R1 & R2 & R3 & R4 & R5). unfold vname in *. rewrite R1.
+    eapply (vlooks_none V N A C E2 e' n2 s outs R2 R3); eauto. lia.
+  - unfold vname in *. now rewrite R.
+Qed.
+
+Theorem build_computes_trace_cf_eq_checked : forall V sem truth trip of_nat of_bool lim lit_val cf fuel ins tr outs args,
+  cf_hyps_eqb cf ins tr = true ->
+  List.length args = List.length ins ->
+  eval_graph V sem truth trip of_nat of_bool lim (S fuel)
+             (init_env V lit_val (b_cache (fst (build_state cf ins tr)))) (build cf ins tr outs) args =
+  creplay V sem truth trip of_nat of_bool lim lit_val fuel tr args outs.
+Proof.
+  intros V sem truth trip of_nat of_bool lim lit_val cf fuel ins tr outs args H Hlen.
+  unfold cf_hyps_eqb in H. apply andb_true_iff in H as [H H4]. unfold cf_hypsb in H.
+  apply andb_true_iff in H as [H H3]. apply andb_true_iff in H as [H1 H2].
+  apply build_computes_trace_cf_eq; auto.
+  - now apply nodup_strb_NoDup.
+  - intro Q. apply mem_str_In in Q. rewrite Q in H4. discriminate.
+  - now apply lits_okb_sound.
+Qed.
+
+(* non-vacuity of the failure direction: a value made inside the then-branch is used by the enclosing trace
+   function; when the else-branch is taken it has no value, the reading is undefined and the graph (which refers to
+   a name defined only inside the other branch) fails; when the then-branch is taken ... it is still out of scope *)
+Local Open Scope string_scope.
+Definition ex_leak_trace : list call :=
+  [COp [] "" "If" [OVal 1] []
+       [("then_branch", Sub [] [COp [] "" "Neg" [OVal 0] [] [] (ODefault 1)] [2] [""]);
+        ("else_branch", Sub [] [COp [] "" "Identity" [OVal 0] [] [] (ODefault 1)] [3] [""])]
+       (ODefault 1);
+   COp [] "" "Add" [OVal 2; OVal 4] [] [] (ODefault 1)].
+
+Example ex_leak :
+  cf_hyps_eqb bcfg_fixed ["x"; "c"] ex_leak_trace = true /\
+  creplay Z zsem ztruth ztrip Z.of_nat zof_bool 100 zlit 1 ex_leak_trace [5; 0]%Z [5] = None /\
+  creplay Z zsem ztruth ztrip Z.of_nat zof_bool 100 zlit 1 ex_leak_trace [5; 1]%Z [5] = None /\
+  (* without the leaking call the reading is defined *)
+  creplay Z zsem ztruth ztrip Z.of_nat zof_bool 100 zlit 1 (firstn 1 ex_leak_trace) [5; 1]%Z [4] = Some [-5]%Z.
+Proof. vm_compute. repeat split; reflexivity. Qed.
+
+Example ex_leak_graph_fails :
+  eval_graph Z zsem ztruth ztrip Z.of_nat zof_bool 100 2
+             (init_env Z zlit (b_cache (fst (build_state bcfg_fixed ["x"; "c"] ex_leak_trace))))
+             (build bcfg_fixed ["x"; "c"] ex_leak_trace [5]) [5; 0]%Z = None.
+Proof.
+  rewrite (build_computes_trace_cf_eq_checked Z zsem ztruth ztrip Z.of_nat zof_bool 100 zlit bcfg_fixed 1);
+    [apply ex_leak | apply ex_leak | reflexivity].
+Qed.
